@@ -15,6 +15,7 @@ LEVEL_TEXT = ("Structural feature extraction from the MIR of both scan implement
               "does not execute regexes.")
 LEVEL_NOTE = ("Not decided: that the `regex` crate returns leftmost matches, and the sequence of arm executions for concrete strings. "
               "Trusted: regex::Captures::get(0) is the overall match; slice::sort_by_key is a stable total sort.")
+LEVEL_TEXT += (" (C10.rx) an arm's regex is Regex::new of the parsed pattern string with no builder options, so leftmost-match semantics are the regex crate's defaults.")
 
 
 def run(prog, rep):
